@@ -77,6 +77,12 @@ Fixpoint restrict (f : form) : form :=
   | FE g => FE (restrict g)
   end.
 
+(* LTL/language.py (after fix F9): LTL.A overrides the method — LTL has no E and no
+   negated state formulas, so A rho ~> A (restricted rho); every other LTL class
+   inherits the CTLS method above *)
+Definition restrict_ltl (f : form) : form :=
+  match f with FA g => FA (restrict g) | _ => restrict f end.
+
 (* CTL/language.py: A / E override get_equivalent_restricted_formula and look at the
    path operator below them; None = the final `raise TypeError` *)
 Definition EX f := FE (FX f).
